@@ -4,6 +4,8 @@ package main
 // rendered to really signed XML and parsed by the real ServiceProvider.
 
 import (
+	"github.com/crewjam/saml/samlsp"
+	"sort"
 	"bytes"
 	"encoding/base64"
 	"errors"
@@ -353,6 +355,23 @@ func (c *Ctx) genC03() {
 			variants(func(cfg SPCfg, r *Resp) { f.absent(cfg, r, ""); c.count("c03-single", f.name+":absent") })
 		}
 	}
+	// sequences: a message without a status (no Status element, an empty one, a StatusCode without Value) right after a
+	// successful one on the same process — nothing of the earlier message may stand in for what the later one lacks
+	for _, shape := range []string{"absent", "empty", "novalue"} {
+		for _, signed := range []string{"none", "idp"} {
+			for rep := 0; rep < 3; rep++ {
+				cfg := baseCfg()
+				good := baseResp(cfg, now)
+				good.Sig = signed
+				run(cfg, good, cfg.Acs)
+				r := baseResp(cfg, now)
+				r.Sig = signed
+				r.Status, r.StatusShape = "", shape
+				c.count("c03-status-after-success", shape)
+				run(cfg, r, cfg.Acs)
+			}
+		}
+	}
 	// pairs: an optional part left out (which switches a check off) together with a perturbation of *another* field —
 	// leaving out the Response Issuer, the audience restriction or the assertion Issuer must not take any other check with it
 	for _, f1 := range fields {
@@ -675,6 +694,37 @@ func (c *Ctx) middlewareOutstanding() {
 		for _, f := range w.flows {
 			w.deliver(f.id, true, copyJar(w.jar), f.index, "faithful")
 		}
+	}
+	// options that say nothing about IdP-initiated login must not switch it on: with each of them set (and AllowIDPInitiated
+	// left unset) an unsolicited response, and a response to a request this browser does not track, are refused
+	hooks := map[string]func(o *samlsp.Options){
+		"DefaultRedirectURI": func(o *samlsp.Options) { o.DefaultRedirectURI = "/home" },
+		"SignRequest":        func(o *samlsp.Options) { o.SignRequest = true },
+		"ForceAuthn":         func(o *samlsp.Options) { o.ForceAuthn = true },
+		"EntityID":           func(o *samlsp.Options) { o.EntityID = "urn:example:sp" },
+		"CookieSameSite":     func(o *samlsp.Options) { o.CookieSameSite = http.SameSiteLaxMode },
+		"RelayStateFunc":     func(o *samlsp.Options) { o.RelayStateFunc = func(http.ResponseWriter, *http.Request) string { return "" } },
+	}
+	var hn []string
+	for n := range hooks {
+		hn = append(hn, n)
+	}
+	sort.Strings(hn)
+	for _, n := range hn {
+		mwOptsHook = hooks[n]
+		w := c.newWorld("https://sp.example.com", "")
+		mwOptsHook = nil
+		orc := ""
+		if w.mw.ServiceProvider.AllowIDPInitiated {
+			orc = "key=option-enables-idp-initiated:" + n + " samlsp.New with " + n + " set and AllowIDPInitiated unset returns a service provider that allows IdP-initiated login"
+		}
+		c.count("c04-option-does-not-allow-unsolicited", n)
+		c.emitOneWay("mwoption", []string{encStr(n)}, fmt.Sprint(w.mw.ServiceProvider.AllowIDPInitiated), orc)
+		if n == "EntityID" || n == "RelayStateFunc" {
+			continue // (these change what a valid response / a tracked flow looks like: the flag is what is checked)
+		}
+		w.deliver("", true, map[string]string{}, "", "unsolicited-no-cookies:"+n)
+		w.deliver("id-foreign", true, map[string]string{}, "", "foreign-no-cookies:"+n)
 	}
 }
 
